@@ -32,11 +32,17 @@ static inline void vstream__read(struct vstream *s, char *p, size_t n) {
   s->pos += n;
 }
 static inline void vstream__seekg(struct vstream *s, size_t off, int whence) { (void)whence; s->pos = off; }
+#ifdef VSTREAM_NO_ARRAY_LOAD
+/* slice obligations that must return before any payload is read: array loads assert(0) */
+#define LOADARRAY(T, N) static inline T *loadValue__##N##__2(struct vstream *in, const size_t len) { __CPROVER_assert(0, "payload read reached in a slice that must return before it"); __CPROVER_assume(0); return 0; }
+#else
+#define LOADARRAY(T, N) static inline T *loadValue__##N##__2(struct vstream *in, const size_t len) { T *r = (T *)cxx_new_array(sizeof(T), len); vstream__read(in, (char *)r, len * sizeof(T)); return r; }
+#endif
 #define DEFINE_STREAM_OPS(T, N) \
   static inline void saveValue__##N##__2(struct vstream *out, const T val) { T v = val; vstream__write(out, (const char *)&v, sizeof(T)); } \
   static inline void saveValue__##N##__3(struct vstream *out, const T *val, const size_t len) { vstream__write(out, (const char *)val, len * sizeof(T)); } \
   static inline T loadValue__##N##__1(struct vstream *in) { T r; vstream__read(in, (char *)&r, sizeof(T)); return r; } \
-  static inline T *loadValue__##N##__2(struct vstream *in, const size_t len) { T *r = (T *)cxx_new_array(sizeof(T), len); vstream__read(in, (char *)r, len * sizeof(T)); return r; }
+  LOADARRAY(T, N)
 DEFINE_STREAM_OPS(uint32_t, uint32_t)
 DEFINE_STREAM_OPS(uint64_t, uint64_t)
 DEFINE_STREAM_OPS(uchar, uchar)
